@@ -55,6 +55,8 @@ pub(crate) struct MemScenario {
     pub reverse_end: bool,
     /// the parked handlers sit behind a query-rewriting middleware (`World::rewrite`)
     pub rewrite: bool,
+    /// outbound queue of one message (`World::outbound1`)
+    pub outbound1: bool,
 }
 
 impl MemScenario {
@@ -68,6 +70,7 @@ impl MemScenario {
             "shared_token": self.shared_token,
             "reverse_end": self.reverse_end,
             "rewriting_middleware": self.rewrite,
+            "outbound_capacity_1": self.outbound1,
         })
     }
     pub(crate) fn from_json(v: &Value) -> Result<MemScenario, String> {
@@ -82,6 +85,7 @@ impl MemScenario {
             shared_token: v["shared_token"].as_bool().unwrap_or(false),
             reverse_end: v["reverse_end"].as_bool().unwrap_or(false),
             rewrite: v["rewriting_middleware"].as_bool().unwrap_or(false),
+            outbound1: v["outbound_capacity_1"].as_bool().unwrap_or(false),
         })
     }
 }
@@ -384,7 +388,16 @@ impl Run<'_> {
             }
             Phase::Outbound => {
                 // (requests 10..12 were pipelined before the server started)
-                if !w.wait(WATCHDOG, |l| l.iter().filter(|e| matches!(e, Ev::Probe { conn, .. } if *conn == idx)).count() >= 3) {
+                if w.outbound1 {
+                    // the queue holds one message: the serving task parks on it long before the third request
+                    if !w.wait(WATCHDOG, |l| l.iter().any(|e| matches!(e, Ev::Probe { conn, .. } if *conn == idx))) {
+                        self.stuck(idx, "no queued request was handled");
+                    }
+                    for _ in 0..20 {
+                        tokio::task::yield_now().await;
+                        std::thread::yield_now();
+                    }
+                } else if !w.wait(WATCHDOG, |l| l.iter().filter(|e| matches!(e, Ev::Probe { conn, .. } if *conn == idx)).count() >= 3) {
                     self.stuck(idx, "the three queued requests were not handled");
                 }
                 // the writer task must have hit the zero write credit
@@ -527,6 +540,7 @@ impl Run<'_> {
         if plan.phase == Phase::Outbound {
             // hooks must fire while the queue is still blocked; then let the writer go
             w.wait(SHORT_WATCHDOG, |l| l.iter().any(|e| matches!(e, Ev::D2 { conn, .. } | Ev::Served { conn, .. } if *conn == idx)));
+            w.push(Ev::PeerReadsAgain { conn: idx });
             c.ctl.a_to_b.set_credit(None);
         }
         if !w.wait(WATCHDOG, |l| l.iter().any(|e| matches!(e, Ev::After { conn, .. } if *conn == idx))) {
@@ -570,7 +584,13 @@ pub(crate) fn run(sc: &MemScenario) -> Outcome {
     let mut out = Outcome::default();
     let n = sc.conns.len();
     let plans: Vec<Plan> = sc.conns.iter().enumerate().map(|(i, c)| Plan::new(i, c.cause, c.phase)).collect();
-    let w = if sc.rewrite { World::new_rewriting(plans) } else { World::new(plans) };
+    let w = if sc.rewrite {
+        World::new_rewriting(plans)
+    } else if sc.outbound1 {
+        World::new_outbound1(plans)
+    } else {
+        World::new(plans)
+    };
     let shared = build_server(&w).into_shared();
     out.counters.scenarios += 1;
     out.counters.connections += n as u64;
